@@ -84,6 +84,7 @@ func checkC03(c *Ctx) {
 		c03AddRemove(c, p, m)
 		c03Notify(c, p, m)
 		c13Fanout(c, p, m)
+		onlySelectedWritten(c, p, m, "R03.2")
 		optionsInOrder(c, p, "R10.3")
 	}
 	c.Floor["R03.1"] = 15
